@@ -19,7 +19,7 @@ CLAIMED = {
          "Exploration: every offset in -7200..=7200 and 8000 offsets around +-100 h, +-1000 h and the i32 extremes on 4 base date-times (both constructors), plus a proptest mixture of years (full i32), seconds 0..60, nanoseconds and offsets; the rendered text must match the documented shape exactly and read back to the same fields, nanoseconds and offset.",
          "The strict reader is the specification of the shape (written from the property text).", "DESIGN.md §5 C18"),
  'C04': ("proptest over constructor-accepted rules (ties and year-long periods constructed; class histogram measured) + notation sweep (thorough: all 1151^2 pairs), each probed at start/end/New-Year instants +- deltas over 12 years + i32-extreme years, against a period model whose order is decided on a full 400-year cycle",
-         "Exploration: accepted, interleaving rules of every class (start-first, end-first, all-tie, mixed-tie both orders) are evaluated at ~600 boundary instants each and the returned type (offset, flag, designation) must equal the half the period model prescribes; year-guard refusals at the i32 extremes are asserted. Day-notation pairs complete in thorough; times, offsets, years sampled.",
+         "Exploration: accepted, interleaving rules of every class (start-first, end-first, all-tie, mixed-tie both orders) are evaluated at ~600 boundary instants each and the returned type (offset, flag, designation) must equal the half the period model prescribes; year-guard refusals at the i32 extremes are asserted; at boundary instants the value-building entry points (DateTime::from_timespec, from_total_nanoseconds with a sub-second part, UtcDateTime::project) must report the same half and its clock. Day-notation pairs complete in thorough; times, offsets, years sampled.",
          "Trusts O-cal/O-rule; classification over one 400-year cycle; overlapping rules are outside the property's quantifier and only counted.", "DESIGN.md §5 C04"),
  'C11': ("complete enumeration of the stated finite quotient (1151^2 day pairs x all d classes) against a brute-force 400-year oracle; proptest for off-lattice arguments; window-edge enumeration",
          "Exploration, exhaustive for the stated quotient: every (start, end) notation pair x every d = k*86400+e within the windows is decided by the constructor and by a brute-force evaluation of the three comparisons over a full 400-year cycle; each d is realised through random time/offset splits. Plus offset/time window edges (specific errors) and day-constructor bounds.",
@@ -31,7 +31,7 @@ CLAIMED = {
          "Exploration: generated valid zones must be accepted by both constructors and give back their parts; each single defect must be refused with its specific error; multi-defect tuples must be refused with one of the violated clauses' errors; both constructors always agree. LocalTimeType::new: every byte at every position for lengths 3..7, lengths 0..10, offset i32::MIN.",
          "Validity predicate transcribed from the property; three unspecified corners (rule cannot be evaluated at the last transition) carry no Ok/Err claim.", "DESIGN.md §5 C13"),
  'C03': ("bounded-exhaustive (table length x query rank x trailer) + proptest over valid zones (incl. zic-aligned and leap-second zones) + big tables, against a linear-scan timeline model (returned type compared by value: offset, flag, designation)",
-         "Exploration: complete for the hand-rolled binary search over all table lengths 0..=256 (thorough 600) x every rank x 3 trailers; random valid zones anywhere in i64 queried at every transition -1/0/+1 on both time scales and extremes; tables up to 2.6e5 entries. The returned type must equal the expected slot's type (which of several equal slots is returned is only counted), errors by kind, from_timespec fields = O-cal(instant+offset).",
+         "Exploration: complete for the hand-rolled binary search over all table lengths 0..=256 (thorough 600) x every rank x 3 trailers; random valid zones anywhere in i64 queried at every transition -1/0/+1 on both time scales and extremes; tables up to 2.6e5 entries. The returned type must equal the expected slot's type (which of several equal slots is returned is only counted), errors by kind, from_timespec fields = O-cal(instant+offset); the side entrances (from_total_nanoseconds, projections from UTC and from a same-offset type, and find_current_local_time_type on zones built around the clock reading, bracketed by the harness's own clock readings) must give the same answer.",
          "O-zone/O-leap/O-rule models; leap zones within 2^32 s of the i64 limits and 'overlapping' rules carry no claim.", "DESIGN.md §5 C03"),
  'C05': ("proptest over valid zones of all shapes (incl. dense, leap-second, zic-aligned zones) x model-derived local times; two oracles: timeline model and round trip through the crate's own forward lookup (metamorphic/inverse relation)",
          "Exploration: for each generated zone ~48 local times placed on every event's two clocks +- seconds/hours, New Year, random and second-60 variants; the valid results must equal, in order and with their types, the instants at which the zone's clock shows that time (model), convert back through the forward lookup to the searched fields, be complete and duplicate-free w.r.t. the forward lookup, and be unique() exactly when single - through the allocating search and through find_n with one buffer kept across the searches of a case (still holding the previous result).",
@@ -59,7 +59,7 @@ CLAIMED = {
          "No 32-bit target available; libFuzzer campaigns are only approximately reproducible from the seed (the saved artifact is the reproducible unit); time-outs are inconclusive.", "DESIGN.md §5 C07"),
  'C10': ("differential testing against two independent implementations (glibc localtime_r, CPython zoneinfo) on every file of the vendored tzdata snapshot: generated query lists (every transition -1/0/+1, random and footer-governed instants, local times around transitions) answered by tz-rs and by reference servers reading the same bytes; random TZ strings vs glibc's parser",
          "Exploration: (offset, abbreviation) at every recorded transition -1/0/+1, random instants 1900-2500 and footer-governed instants of all 447 main-tree files vs glibc and zoneinfo, and of all 447 right/ files vs glibc (through the leap model); isdst and broken-down fields vs glibc; mktime instant sets for local times within 3 h of every transition (main tree) vs the sets implied by both references, and candidate-instant membership around every post-1972 transition of the right/ tree vs glibc; generated TZ strings vs glibc's TZ-environment parser inside the domain where glibc is itself right.",
-         "Agreement is with glibc and CPython as installed, on tzdata 2025b as vendored; rule-less files after their last transition are excluded (tz-rs must answer NoAvailableLocalTimeType there).", "DESIGN.md §5 C10"),
+         "Agreement is with glibc and CPython as installed, on tzdata 2025b as vendored; rule-less files after their last transition (as recorded in the file, read by the independent RFC 8536 reader) are excluded (tz-rs must answer NoAvailableLocalTimeType there).", "DESIGN.md §5 C10"),
  'C15': ("generated multi-threaded programs (op sequences over shared zones; sequential vs reversed / permuted / 2-16 threads / child process with perturbed environment) with per-op result digests; compile-time auto-trait + Freeze assertions; auxiliary (non-PBT) static audit",
          "Exploration of the observable half: every operation of each generated program must return, in any order, on any of 2..16 concurrently running threads sharing the zones by reference, and in a process with TZ/TZDIR/LANG/cwd changed, exactly what it returns in the plain sequential run (digest of the complete Debug rendering). Settings operations use four virtual file systems giving the same names different contents, so a cache keyed on too little collides. Compile-time: Send + Sync + 'static + Freeze for every public type, in each of the three feature configurations of tz-rs. The schedule is the OS's: rare interleavings and behaviour-preserving global state are out of reach; an auxiliary symbol/token audit (labelled non-PBT) covers the latter.",
          "OS-chosen schedules; digest = hash of Debug output; auxiliary audit is not the deciding evidence.", "DESIGN.md §5 C15"),
